@@ -60,8 +60,13 @@ def externals(reg):
     # parse_rfc3339_datetime as seen by callers: an opaque datetime whose .timestamp() is INSTANT(text) (C08)
     reg.contract(E.SE + "parse_rfc3339_datetime", pure=True,
                  ensures=[("instant", "ts(retval) == INSTANT(rfc3339)")], result_type="fn",
-                 raises={"ValueError": "isstr(rfc3339) and not RFC3339_OK(rfc3339)", "IndexError": None,
-                         "TypeError": None, "AttributeError": None},
+                 # a valid timestamp parses; whitespace-only text fails with IndexError, any other bad text with
+                 # ValueError, a non-string with AttributeError (assumed caller view; the real body is under C08)
+                 raises={"IndexError": "isstr(rfc3339) and not RFC3339_OK(rfc3339) and re_full('[ \\t\\n\\r\\x0b\\x0c]*', rfc3339)",
+                         "ValueError": "isstr(rfc3339) and not RFC3339_OK(rfc3339)",
+                         "AttributeError": "not isstr(rfc3339)"},
+                 assumes=["RFC3339_OK(text) implies text is not whitespace-only; parse_rfc3339_datetime raises exactly on "
+                          "text that is not a valid timestamp"],
                  modifies=None)
 
 
